@@ -475,32 +475,35 @@ class Ev:
     def s_Assert(self, st):
         c = self.ev(st.test)
         self.emit("assert", st, value=c)
-        self.guards = self.guards + ((c, True),)
+        self.guards = self.guards + (canon_guard(c, True),)
 
     def s_If(self, st):
-        c = self.ev(st.test)
+        # canonical orientation: `if not c: B else: A`, `if a != b: B else: A` and `if c: A else: B` produce the same
+        # event stream (same order, same guards), so that no rule depends on how a two-way branch is spelled
+        c, pol = canon_guard(self.ev(st.test), True)
+        body, orelse = (st.body, st.orelse) if pol else (st.orelse, st.body)
         self.emit("test", st, value=c)
         env0 = dict(self.env)
         fwd0 = dict(self.fwd)
         g0 = self.guards
         self.guards = g0 + ((c, True),)
-        self.block(st.body)
+        self.block(body)
         env1 = self.env
         fwd1 = self.fwd
         self.env = dict(env0)
         self.fwd = dict(fwd0)
         self.guards = g0 + ((c, False),)
-        self.block(st.orelse)
+        self.block(orelse)
         env2 = self.env
         fwd2 = self.fwd
         self.guards = g0
-        if terminates(st.body) and not terminates(st.orelse):
+        if terminates(body) and not terminates(orelse):
             self.fwd = fwd2
-        elif terminates(st.orelse) and not terminates(st.body):
+        elif terminates(orelse) and not terminates(body):
             self.fwd = fwd1
         else:
             self.fwd = {k: v for k, v in fwd1.items() if k in fwd2 and fwd2[k][1].key() == v[1].key()}
-        t1, t2 = terminates(st.body), terminates(st.orelse)
+        t1, t2 = terminates(body), terminates(orelse)
         if t1 and not t2:
             self.env = env2
             self.guards = g0 + ((c, False),)
@@ -688,7 +691,7 @@ class Ev:
         self.all_loops.append(info)
         saved_loops, g0 = self.loops, self.guards
         self.loops = saved_loops + (info,)
-        self.guards = g0 + ((c, True),)
+        self.guards = g0 + (canon_guard(c, True),)
         body_bases = self._stored_bases(st.body)
         self._fwd_kill(bases=body_bases)
         self.block(st.body)
@@ -1121,6 +1124,9 @@ def parity_of(cond: P):
 def mk_ite(c: P, a: P, b: P) -> P:
     if a.key() == b.key():
         return a
+    c, pol = canon_guard(c, True)
+    if not pol:
+        a, b = b, a
     par = parity_of(c)
     if par is not None:
         x, odd_true = par
@@ -1189,6 +1195,19 @@ def matmul_list(fs) -> P:
 
 def matmul(a: P, b: P) -> P:
     return matmul_list([a, b])
+
+
+def canon_guard(c: "P", pol: bool):
+    """Canonical (condition, polarity) of a two-way test: explicit `not` is stripped and ne / not in / is not / <=
+    are expressed through eq / in / is / < with the polarity flipped (a <= b  is  not (b < a))."""
+    while True:
+        a = c.as_atom()
+        if a and a[0] == "not":
+            c, pol = a[1], not pol
+            continue
+        if a and a[0] in ("ne", "notin", "isnot", "le"):
+            c, pol = negate(c), not pol
+        return c, pol
 
 
 def negate(v: P) -> P:
@@ -1283,6 +1302,12 @@ def call_name(atom):
     if c[0] == "attr":
         return "." + c[2]
     return None
+
+
+def guard_holds(guards, cond: "P") -> bool:
+    """The condition (in any spelling) is one of the dominating guards (guards are stored in canonical orientation)."""
+    c, pol = canon_guard(cond, True)
+    return any(g.key() == c.key() and gp == pol for g, gp in guards)
 
 
 def guard_implies(guards, pred) -> bool:
